@@ -1,7 +1,8 @@
 import OsmVerif.Oracle.Util
 import OsmVerif.Model.Json
+import OsmVerif.Model.JsonFields
 namespace OsmVerif.Oracle.C05
-open OsmVerif.Oracle OsmVerif.Model.Json
+open OsmVerif.Oracle OsmVerif.Model.Json OsmVerif.Model.Schema
 
 def sortStrs (l : List String) : List String := (l.toArray.qsort (· < ·)).toList
 
@@ -94,6 +95,23 @@ def handle (toks : List String) : String :=
       "[" ++ ",".intercalate (ids.map toString) ++ "] " ++
         ",".intercalate (back.map fun n => s!"{n.id}:{n.version}:{n.changeset}:{n.lat}:{n.lon}")
     | none => "bad-op"
+  | op :: ty :: rest =>
+    if op = "jfields" ∨ op = "jdecode" then
+      let parseKV (kv : String) : Option (String × String) :=
+        match kv.splitOn "=" with
+        | [k, v] => (unhex v).map fun v => (k, v)
+        | _ => none
+      let kvs : Option (List (String × String)) :=
+        match rest with
+        | [] => some []
+        | [s] => (s.splitOn ",").mapM parseKV
+        | _ => none
+      match kvs with
+      | some kvs =>
+        let out := if op = "jfields" then encodeJson ty kvs else decodeJson ty kvs
+        if out.isEmpty then "-" else ",".intercalate (out.map fun (n, v) => s!"{n}={hex v}")
+      | none => "bad-op"
+    else "bad-op"
   | _ => "bad-op"
 
 end OsmVerif.Oracle.C05
